@@ -123,11 +123,19 @@ func (x *Exec) callsiteAsserts(fr *Frame, st *State, c *ssa.CallCommon, site *ss
 			x.vc.assume(Implies(st.Reach, x.lemmaInstance(env, cs.Clause)))
 			continue
 		}
-		g := env.evalBool(cs.Clause.Expr)
 		tag := cs.Tag
 		if tag == "" {
 			tag = cs.Callee
 		}
+		if cs.IsReach {
+			// the call must be reachable in a state where e holds (a path the code must keep open)
+			env.goal = false
+			g := env.evalBool(cs.Clause.Expr)
+			x.vc.obls = append(x.vc.obls, &Obl{Name: x.vc.fnName + "#callsite." + tag + ".reach", Kind: "cover", Goal: Not(And(st.Reach, g)), N: len(x.vc.items),
+				Desc: "the call of " + cs.Callee + " is reachable with: " + cs.Clause.Src, Fn: x.vc.fnName, VC: x.vc, Expect: "sat", Pos: x.posOf(fr.fn, site.Pos()), Clause: cs.Clause.Src})
+			continue
+		}
+		g := env.evalBool(cs.Clause.Expr)
 		o := x.vc.oblige("callsite."+tag, Implies(st.Reach, g), x.posOf(fr.fn, site.Pos()), fmt.Sprintf("at the call of %s: %s", cs.Callee, cs.Clause.Src))
 		o.Clause = cs.Clause.Src
 		// vacuity guard: the call must be reachable under the preconditions
